@@ -130,6 +130,8 @@ pub mod succinct;
 pub mod statistics;
 pub mod system;
 pub mod thread;
+#[cfg(zipora_verif)]
+pub mod verif_hooks;
 
 // Re-export core types
 pub use containers::{
